@@ -107,6 +107,14 @@ BAD = {
 }
 
 
+# a line that begins like a hunk header but is not one: the patch is refused, the hunk is not quietly skipped
+for _i, _h in enumerate([b'@@ -1,3 1,3 @@', b'@@ -1,3 +1,3', b'@@ -1,3+1,3 @@', b'@@ -1,,3 +1,3 @@', b'@@ -1,3 +1,x @@', b'@@ -1,3 +,3 @@', b'@@ -1 3 +1,3 @@', b'@@ -1,3  +1,3 @@', b'@@ -1,3 +1,3@@',
+                         b'@@ -,3 +1,3 @@', b'@@ --1,3 +1,3 @@', b'@@ -1,3 + 1,3 @@']):
+    BAD['malformed-hunk-header-%d' % _i] = b'--- a/f\n+++ b/f\n' + _h + b'\n f0\n-f1\n+X\n f2\n'
+# ... also as the second hunk, behind one that is fine
+BAD['malformed-second-hunk-header'] = b'--- a/f\n+++ b/f\n@@ -1,2 +1,2 @@\n-f0\n+X\n f1\n@@ -4,2 4,2 @@\n f3\n-f4\n+Y\n'
+
+
 def case_badpatch(task):
     """a missing / unparseable / unreadable patch file at position j of the range, everything before it applies"""
     m0, texts, prior, j, kind, threads, quiet = task
